@@ -1,8 +1,9 @@
 (** The event-loop transition system of the blocking pops (C13) and what the property
     statement prescribes about it.  Definitions only; the theorems are in Props/C13.v, their
-    proofs in Proofs/BlockingFacts.v.  Model: Model/Blocking.v beside Model/Server.v. *)
+    proofs in Proofs/BlockingFacts.v, BlockingFifo.v, BlockingCons.v, BlockingStrand.v.  Model: Model/Blocking.v beside Model/Server.v. *)
 From Ferrous Require Import Base.Bytes Generated Model.Resp Model.Types Model.Strings Model.Lists
   Model.Server Model.Blocking.
+From Coq Require Import Sorted.
 Open Scope Z_scope.
 
 Definition sys := (server * blocking)%type.
@@ -10,13 +11,15 @@ Definition sys := (server * blocking)%type.
 (** The micro-steps of Server::run.  A [EFrame] is one request processed on one connection
     (process_connection runs the frames of a read one after the other: a batch is a sequence
     of EFrame events of the same connection); [EWakeups], [ETimeouts] are the two phases of
-    an iteration that serve blocked clients; clients connect and go away. *)
+    an iteration that serve blocked clients; clients connect and go away; [EHangups] is the
+    server noticing it (c7e6509: also for connections that are blocked). *)
 Inductive event :=
 | EFrame (now c : Z) (f : frame) (oms : option Z)
-| EWakeups
+| EWakeups (now : Z)
 | ETimeouts (now : Z)
 | EConnect (c : Z)
-| EDisconnect (c : Z).
+| EDisconnect (c : Z)      (* the client goes away *)
+| EHangups.                (* process_connections looks at the connections whose client is gone *)
 
 Definition frame_step (now : Z) (s : server) (b : blocking) (c : Z) (f : frame) (oms : option Z) : sys :=
   match bprocess_frame now s b c f None oms with
@@ -27,16 +30,16 @@ Definition step (st : sys) (e : event) : sys :=
   if b_crashed b then st else        (* Server::run has returned: the process is gone *)
   match e with
   | EFrame now c f oms => frame_step now s b c f oms
-  | EWakeups => process_wakeups s b
+  | EWakeups now => process_wakeups now s b
   | ETimeouts now => (s, process_timeouts now b)
   | EConnect c => (connect s c, b)
-  | EDisconnect c =>
-      (* a blocked connection is not read: nothing is noticed; otherwise the next read finds the end of
-         the stream and cleanup_connections unregisters the connection from every database *)
-      (del_conn s c, if is_blocked b c then with_dead b (c :: b_dead b)
-                     else with_reg b (unregister_all (b_reg b) c))
+  | EDisconnect c => (del_conn s c, with_dead b (c :: b_dead b))
+  | EHangups => (s, reap_dead b)    (* Closing, then cleanup_connections: removed, unregistered everywhere *)
   end.
 Definition run (st : sys) (evs : list event) : sys := fold_left step evs st.
+
+Definition cnt (c : Z) (q : list waiter) : nat := length (filter (fun w => w_conn w =? c) q).
+Definition wakes_for (c : Z) (l : list wakeup) : list wakeup := filter (fun u => u_conn u =? c) l.
 
 (** ---- which histories ---- *)
 Definition bpop_parts (parts : list frame) : bool :=
@@ -44,12 +47,13 @@ Definition bpop_parts (parts : list frame) : bool :=
 Definition bpop_frame (f : frame) : bool :=
   match f with FArray parts => bpop_parts parts | _ => false end.
 
-(** The histories the agreement theorems quantify over: ANY requests, with
-    - a request is processed on a connection only while that connection is not blocked
-      (excluded: class pipelined-behind-block - the server runs the rest of a read, and what
-      was written while the connection was blocked, although the connection has just blocked);
-    - QUIT is a disconnect; connection ids are fresh and never 0 (CONN_ID_COUNTER starts at 1
-      and only grows; 0 is the id process_command_parts uses inside EXEC). *)
+(** The histories the theorems quantify over: ANY requests, where
+    - a request is processed on a connection only while that connection is not blocked: this is
+      what process_connection does since 939522b ([c13_batch_is_frames]: the frames behind a
+      command that blocks wait), so it is a fact about the code, not a restriction;
+    - QUIT is a disconnect; a client that has gone away sends nothing; connection ids are
+      fresh and never 0 (CONN_ID_COUNTER starts at 1 and only grows; 0 is the id
+      process_command_parts uses inside EXEC). *)
 Definition ok (st : sys) (e : event) : bool :=
   let (s, b) := st in
   match e with
@@ -60,6 +64,7 @@ Definition ok (st : sys) (e : event) : bool :=
       end
   | EConnect c =>
       negb (c =? 0) && negb (is_blocked b c) && (match zlookup c (s_conns s) with None => true | Some _ => false end)
+      && (match wakes_for c (b_wake b) with [] => true | _ => false end) && negb (existsb (Z.eqb c) (b_dead b))
   | _ => true
   end.
 
@@ -68,8 +73,6 @@ Inductive reach (pw : option bytes) : sys -> Prop :=
 | reach_step : forall st e, reach pw st -> ok st e = true -> reach pw (step st e).
 
 (** ---- registry / connection-state agreement ---- *)
-Definition cnt (c : Z) (q : list waiter) : nat := length (filter (fun w => w_conn w =? c) q).
-Definition wakes_for (c : Z) (l : list wakeup) : list wakeup := filter (fun u => u_conn u =? c) l.
 
 (** a waiter in the registry: its connection is Blocked on that key of that database with
     that deadline and operation, and no wake-up is under way for it *)
@@ -77,11 +80,13 @@ Definition waiters_agree (b : blocking) : Prop :=
   forall rk q w, In (rk, q) (b_reg b) -> In w q ->
   exists st, zlookup (w_conn w) (b_blk b) = Some st /\ fst rk = bl_db st /\ bmem (snd rk) (bl_keys st) = true
              /\ w_dl w = bl_dl st /\ w_left w = bl_left st /\ wakes_for (w_conn w) (b_wake b) = [].
-(** a queued wake-up: its connection is Blocked on that key and has no registration left *)
+(** a queued wake-up: its connection has no registration left and, unless it has gone away
+    meanwhile, is Blocked on that key *)
 Definition wakes_agree (b : blocking) : Prop :=
   forall u, In u (b_wake b) ->
-  exists st, zlookup (u_conn u) (b_blk b) = Some st /\ u_db u = bl_db st /\ bmem (u_key u) (bl_keys st) = true
-             /\ u_left u = bl_left st /\ forall rk q, In (rk, q) (b_reg b) -> cnt (u_conn u) q = O.
+  (forall rk q, In (rk, q) (b_reg b) -> cnt (u_conn u) q = O) /\
+  (forall st, zlookup (u_conn u) (b_blk b) = Some st ->
+     u_db u = bl_db st /\ bmem (u_key u) (bl_keys st) = true /\ u_left u = bl_left st).
 Definition wakes_unique (b : blocking) : Prop := NoDup (map u_conn (b_wake b)).
 (** a Blocked connection without a wake-up under way is registered on every one of its keys *)
 Definition blocked_registered (b : blocking) : Prop :=
@@ -90,9 +95,13 @@ Definition blocked_registered (b : blocking) : Prop :=
 Definition agree (b : blocking) : Prop :=
   waiters_agree b /\ wakes_agree b /\ wakes_unique b /\ blocked_registered b.
 
-(** no connection has the id 0 (the id the queued commands of an EXEC run with) *)
+(** no connection has the id 0 (the id the queued commands of an EXEC run with); a wake-up whose
+    connection is not Blocked belongs to a connection that is gone; so does a client that went away *)
+Definition gone_ok (st : sys) : Prop :=
+  (forall u, In u (b_wake (snd st)) -> zlookup (u_conn u) (b_blk (snd st)) = None -> zlookup (u_conn u) (s_conns (fst st)) = None)
+  /\ (forall c, In c (b_dead (snd st)) -> zlookup c (s_conns (fst st)) = None).
 Definition inv (st : sys) : Prop :=
-  b_crashed (snd st) = true \/ (agree (snd st) /\ zlookup 0 (s_conns (fst st)) = None).
+  b_crashed (snd st) = true \/ (agree (snd st) /\ zlookup 0 (s_conns (fst st)) = None /\ gone_ok st).
 
 (** ---- what a step writes to the connections ---- *)
 (** [wrote b b' new]: the step appended the frames [new] (oldest first) *)
@@ -102,8 +111,10 @@ Definition frames_to (c : Z) (new : list (Z * frame)) : list frame :=
 
 (** ---- conservation ---- *)
 (** the histories of the conservation theorem: requests from the list catalogue of the
-    property (pushes, pops, blocking pops, reads, transactions of those), and no client
-    goes away while blocked (class blocked-disconnect) *)
+    property (pushes, pops, blocking pops, reads, transactions of those); clients may go away
+    at any time, blocked or not.  The catalogue has no command that gives a key a deadline, so
+    no list ever expires in these histories ([c13_no_deadlines]); with EXPIRE on a list its
+    elements legitimately vanish at the deadline and the equation would need an "expired" term. *)
 Definition list_cmds : list bytes :=
   [bs "LPUSH"; bs "RPUSH"; bs "LPOP"; bs "RPOP"; bs "BLPOP"; bs "BRPOP"; bs "LLEN"; bs "LRANGE"; bs "LINDEX";
    bs "MULTI"; bs "EXEC"; bs "DISCARD"; bs "PING"; bs "SELECT"].
@@ -116,7 +127,6 @@ Definition ok_cons (st : sys) (e : event) : bool :=
   ok st e &&
   match e with
   | EFrame _ _ f _ => list_frame f
-  | EDisconnect c => negb (is_blocked (snd st) c)
   | _ => true
   end.
 (** the list stored at a key (nothing for a missing key or another type) *)
@@ -149,10 +159,20 @@ Definition returned_of (dbi : Z) (parts : list frame) (rep : frame) : list elem 
       else []
   | _ => []
   end.
-(** the queued commands of an EXEC against the slots of its reply *)
-Fixpoint zip_effects (f : list frame -> frame -> list elem) (q : list (list frame)) (reps : list frame) : list elem :=
+(** the queued commands of an EXEC against the slots of its reply; a queued SELECT answered
+    OK selected the database the commands after it run in (1ecc022) *)
+Definition is_ok (rep : frame) : bool := match rep with FSimple t => beq t (bs "OK") | _ => false end.
+Definition next_db (dbi : Z) (parts : list frame) (rep : frame) : Z :=
+  match parts with
+  | [FBulk nm; FBulk a] =>
+      if beq (upper nm) (bs "SELECT") && is_ok rep
+      then match parse_usize a with Some n => n | None => dbi end
+      else dbi
+  | _ => dbi
+  end.
+Fixpoint zip_effects (f : Z -> list frame -> frame -> list elem) (dbi : Z) (q : list (list frame)) (reps : list frame) : list elem :=
   match q, reps with
-  | parts :: q', r :: reps' => f parts r ++ zip_effects f q' reps'
+  | parts :: q', r :: reps' => f dbi parts r ++ zip_effects f (next_db dbi parts r) q' reps'
   | _, _ => []
   end.
 Definition frame_effect (f : Z -> list frame -> frame -> list elem) (s : server) (c : Z) (req rep : frame) : list elem :=
@@ -160,7 +180,7 @@ Definition frame_effect (f : Z -> list frame -> frame -> list elem) (s : server)
   | Some cn, FArray (FBulk nm :: rest) =>
       if c_intx cn then
         if beq (upper nm) (bs "EXEC") then
-          match rep with FArray reps => zip_effects (f (c_db cn)) (c_queue cn) reps | _ => [] end
+          match rep with FArray reps => zip_effects f (c_db cn) (c_queue cn) reps | _ => [] end
         else []                                       (* queued, or transaction control *)
       else f (c_db cn) (FBulk nm :: rest) rep
   | _, _ => []
@@ -188,7 +208,7 @@ Definition pushed_in (st : sys) (e : event) : list elem :=
 Definition returned_in (st : sys) (e : event) : list elem :=
   match e with
   | EFrame now c f oms => frame_effect returned_of (fst st) c f (reply_at st e)
-  | EWakeups => async_returns (snd st) (new_out (snd st) (snd (step st e)))
+  | EWakeups _ => async_returns (snd st) (new_out (snd st) (snd (step st e)))
   | _ => []
   end.
 (** reachable states with the multisets of everything pushed and everything returned so far *)
@@ -204,38 +224,50 @@ Definition sys0 : sys := (init_server None, init_blocking).
 Definition out_to (st : sys) (c : Z) : list frame := rev (frames_to c (b_out (snd st))).
 Definition waiting (st : sys) (db : Z) (k : bytes) : list Z := map w_conn (reg_get (b_reg (snd st)) (db, k)).
 
-(** blocked-disconnect: the client of a blocked connection goes away, the next element is
-    delivered into the dead connection and is gone *)
+(** blocked-disconnect (fixed c7e6509): the client of a blocked connection goes away; the server
+    notices (the blocked socket is looked at), unregisters it, and the next element stays in the
+    list instead of being written to a connection nobody reads *)
 Definition w_disconnect : list event :=
-  [EConnect 1; EConnect 2; at0 1 [bs "BLPOP"; bs "q"; bs "0"] (Some 0); EDisconnect 1;
-   at0 2 [bs "LPUSH"; bs "q"; bs "v"] None; EWakeups].
-(** pipelined-behind-block: two blocking calls processed in one read: the second overwrites the
-    Blocked state, the first's registration times out and its nil answers ... the second,
-    which asked to wait forever and whose registration is left behind *)
-Definition w_behind : list event :=
-  [EConnect 1; at0 1 [bs "BLPOP"; bs "q"; bs "0.3"] (Some 300); at0 1 [bs "BLPOP"; bs "r"; bs "0"] (Some 0);
-   ETimeouts 300].
+  [EConnect 1; EConnect 2; at0 1 [bs "BLPOP"; bs "q"; bs "0"] (Some 0); EDisconnect 1; EHangups;
+   at0 2 [bs "LPUSH"; bs "q"; bs "v"] None; EWakeups 0].
+(** pipelined-behind-block (fixed 939522b): two blocking calls and a PING arrive in one read: the
+    first blocks the connection, the rest waits and is processed, in order, once it is unblocked *)
+Definition w_behind : list (frame * option Z) :=
+  [(cmd [bs "BLPOP"; bs "q"; bs "0.3"], Some 300); (cmd [bs "BLPOP"; bs "r"; bs "0"], Some 0); (cmd [bs "PING"], None)].
+(** orphan-wakeup-no-renotify (fixed 0715a3b): the client whose wake-up is under way goes away; the
+    wake-up puts the element back and notifies the next client waiting on the key, which the
+    following wake-up phase serves *)
+Definition w_orphan : list event :=
+  [EConnect 1; EConnect 2; EConnect 3; at0 1 [bs "BLPOP"; bs "q"; bs "0"] (Some 0); at0 2 [bs "BLPOP"; bs "q"; bs "0"] (Some 0);
+   at0 3 [bs "LPUSH"; bs "q"; bs "v"] None; EDisconnect 1; EHangups; EWakeups 0].
+(** script-push-no-notify (fixed e42ab1f): a script that pushes to its declared key wakes the
+    client blocked there.  The script: local r={} r[1]=redis.call("LPUSH",KEYS[1],ARGV[1]) return r[1] *)
+Definition push_script : bytes :=
+  [108; 111; 99; 97; 108; 32; 114; 61; 123; 125; 10; 114; 91; 49; 93; 61; 114; 101; 100; 105; 115; 46; 99; 97; 108; 108; 40; 34; 92; 48; 55; 54; 92; 48; 56; 48; 92; 48; 56; 53; 92; 48; 56; 51; 92; 48; 55; 50; 34; 44; 75; 69; 89; 83; 91; 49; 93; 44; 65; 82; 71; 86; 91; 49; 93; 41; 10; 114; 101; 116; 117; 114; 110; 32; 114; 91; 49; 93].
+Definition w_script : list event :=
+  [EConnect 1; EConnect 2; at0 1 [bs "BLPOP"; bs "q"; bs "0"] (Some 0);
+   at0 2 [bs "EVAL"; push_script; bs "1"; bs "q"; bs "v"] None; EWakeups 0].
 (** blocking-in-exec (fixed d076b83): BLPOP inside MULTI used to register a waiter for connection
     id 0 ahead of the real clients; now it answers nil in its slot and the real client is served *)
 Definition w_exec : list event :=
   [EConnect 1; EConnect 2; EConnect 3; at0 1 [bs "MULTI"] None; at0 1 [bs "BLPOP"; bs "q"; bs "0"] None;
    at0 1 [bs "EXEC"] None; at0 2 [bs "BLPOP"; bs "q"; bs "0"] (Some 0); at0 3 [bs "LPUSH"; bs "q"; bs "v"] None;
-   EWakeups].
+   EWakeups 0].
 (** wrongtype-at-wake (fixed e1d4020): the key of a queued wake-up holds a string by the time the
     wake-up runs; the error used to leave the event loop, now the client is registered again *)
 Definition w_wrongtype : list event :=
   [EConnect 1; EConnect 2; at0 1 [bs "BLPOP"; bs "q"; bs "0"] (Some 0); at0 2 [bs "LPUSH"; bs "q"; bs "v"] None;
-   at0 2 [bs "DEL"; bs "q"] None; at0 2 [bs "SET"; bs "q"; bs "x"] None; EWakeups].
-(** requeue-at-back: a wake-up that finds its element taken re-registers the client BEHIND the
-    clients that blocked after it *)
+   at0 2 [bs "DEL"; bs "q"] None; at0 2 [bs "SET"; bs "q"; bs "x"] None; EWakeups 0].
+(** requeue-at-back (fixed 8ab686d): a wake-up that finds its element taken registers the client
+    again AHEAD of the clients that blocked after it: the next push serves it *)
 Definition w_requeue : list event :=
   [EConnect 1; EConnect 2; EConnect 3; at0 1 [bs "BLPOP"; bs "q"; bs "0"] (Some 0);
    at0 2 [bs "BLPOP"; bs "q"; bs "0"] (Some 0); at0 3 [bs "LPUSH"; bs "q"; bs "a"] None; at0 3 [bs "LPOP"; bs "q"] None;
-   EWakeups; at0 3 [bs "LPUSH"; bs "q"; bs "b"] None; EWakeups].
+   EWakeups 0; at0 3 [bs "LPUSH"; bs "q"; bs "b"] None; EWakeups 0].
 (** a history inside every hypothesis: two clients on one key, two pushes, a timeout *)
 Definition w_good : list event :=
   [EConnect 1; EConnect 2; EConnect 3; at0 1 [bs "BLPOP"; bs "q"; bs "r"; bs "0"] (Some 0);
-   at0 2 [bs "BRPOP"; bs "q"; bs "0.3"] (Some 300); at0 3 [bs "RPUSH"; bs "q"; bs "a"; bs "b"; bs "c"] None; EWakeups;
+   at0 2 [bs "BRPOP"; bs "q"; bs "0.3"] (Some 300); at0 3 [bs "RPUSH"; bs "q"; bs "a"; bs "b"; bs "c"] None; EWakeups 0;
    at0 2 [bs "BLPOP"; bs "m"; bs "0.3"] (Some 300); ETimeouts 300].
 (** every event of a history satisfies [ok] where it is executed *)
 Fixpoint all_ok (st : sys) (evs : list event) : bool :=
@@ -250,13 +282,12 @@ Fixpoint gtrace (st : sys) (P R : list elem) (evs : list event) : sys * list ele
 Fixpoint all_ok_cons (st : sys) (evs : list event) : bool :=
   match evs with [] => true | e :: r => ok_cons st e && all_ok_cons (step st e) r end.
 
-(** reregister-no-recheck: client 1 waits on q and r; its element on q is taken before the
-    wake-up runs while r receives an element; the wake-up registers it again on q and r without
-    looking at r *)
+(** reregister-no-recheck (fixed 8ab686d): client 1 waits on q and r; its element on q is taken
+    before the wake-up runs while r receives an element; the wake-up serves it from r *)
 Definition w_recheck : list event :=
   [EConnect 1; EConnect 2; at0 1 [bs "BLPOP"; bs "q"; bs "r"; bs "0"] (Some 0);
    at0 2 [bs "LPUSH"; bs "q"; bs "a"] None; at0 2 [bs "LPOP"; bs "q"] None; at0 2 [bs "LPUSH"; bs "r"; bs "b"] None;
-   EWakeups].
+   EWakeups 0].
 
 (** ---- no stranding (the safety half of "served promptly") ---- *)
 (** wake-ups under way for a key *)
@@ -267,17 +298,37 @@ Definition wcount (db : Z) (k : bytes) (W : list wakeup) : Z :=
 Definition no_strand (st : sys) : Prop :=
   forall db k, 0 <= db -> reg_get (b_reg (snd st)) (db, k) <> [] ->
   len (list_at (fst st) db k) <= wcount db k (b_wake (snd st)).
-(** histories of the list catalogue in which every blocking pop names ONE key *)
-Definition single_key (f : frame) : bool :=
-  match f with FArray parts => if bpop_parts parts then len parts =? 3 else true | _ => true end.
-Definition ok_sk (st : sys) (e : event) : bool :=
-  ok_cons st e && match e with EFrame _ _ f _ => single_key f | _ => true end.
-Inductive reach_sk : sys -> Prop :=
-| rsk_init : reach_sk (init_server None, init_blocking)
-| rsk_step : forall st e, reach_sk st -> ok_sk st e = true -> reach_sk (step st e).
-Fixpoint all_ok_sk (st : sys) (evs : list event) : bool :=
-  match evs with [] => true | e :: r => ok_sk st e && all_ok_sk (step st e) r end.
 (** two single-key waiters, a push of two elements observed BEFORE the wake-ups run, then after *)
 Definition w_sk : list event :=
   [EConnect 1; EConnect 2; EConnect 3; at0 1 [bs "BLPOP"; bs "q"; bs "0"] (Some 0);
    at0 2 [bs "BRPOP"; bs "q"; bs "0.3"] (Some 300); at0 3 [bs "RPUSH"; bs "q"; bs "a"; bs "b"; bs "c"] None].
+
+(** ---- FIFO as a property of the history: served in the order they blocked ---- *)
+(** every registration and every wake-up carries the stamp its blocking call got (blocked_at in
+    the code: Instant::now(); in the model a counter, so two calls never share a stamp) *)
+Definition stamp_in (b : blocking) (c t : Z) : Prop :=
+  (exists rk w, In w (reg_get (b_reg b) rk) /\ w_conn w = c /\ w_at w = t) \/
+  (exists u, In u (b_wake b) /\ u_conn u = c /\ u_at u = t).
+(** the event leaves its connection Blocked *)
+Definition blocks (st : sys) (e : event) : bool :=
+  match e with
+  | EFrame _ c _ _ => negb (is_blocked (snd st) c) && is_blocked (snd (step st e)) c
+  | _ => false
+  end.
+(** reachable states with the number of blocking calls that blocked so far *)
+Inductive reach_n (pw : option bytes) : nat -> sys -> Prop :=
+| rn_init : reach_n pw O (init_server pw, init_blocking)
+| rn_step : forall n st e, reach_n pw n st -> ok st e = true ->
+    reach_n pw (n + (if blocks st e then 1 else 0))%nat (step st e).
+(** a queue in the order its waiters blocked *)
+Definition stamp_le (a b : waiter) : Prop := w_at a <= w_at b.
+Definition in_blocking_order (q : list waiter) : Prop := StronglySorted stamp_le q.
+(** the FIFO history: a connection blocks, two more block behind it, its element is taken before
+    its wake-up runs (it keeps its place), then three pushes serve the three in the order they blocked *)
+Definition w_fifo : list event :=
+  [EConnect 1; EConnect 2; EConnect 3; EConnect 4;
+   at0 1 [bs "BLPOP"; bs "q"; bs "0"] (Some 0); at0 2 [bs "BLPOP"; bs "q"; bs "0"] (Some 0);
+   at0 3 [bs "BLPOP"; bs "q"; bs "0"] (Some 0);
+   at0 4 [bs "LPUSH"; bs "q"; bs "x"] None; at0 4 [bs "LPOP"; bs "q"] None; EWakeups 0;
+   at0 4 [bs "RPUSH"; bs "q"; bs "a"] None; EWakeups 0; at0 4 [bs "RPUSH"; bs "q"; bs "b"] None; EWakeups 0;
+   at0 4 [bs "RPUSH"; bs "q"; bs "c"] None; EWakeups 0].
